@@ -133,6 +133,13 @@ CONFIGURE_SIZES = [0, 1, 2, 5, None, 256, 512]
 ALLOWED_EXC = ("ValueError", "TypeError")
 
 
+class Opaque:
+    """An object of an undocumented type, with an address-free repr."""
+
+    def __repr__(self):
+        return "<Opaque>"
+
+
 class StrSub(str):
     """A str subclass (documented as accepted wherever str is)."""
 
@@ -179,7 +186,7 @@ def materialise(spec, slots):
         if t == "qproxy":  # the live .query of a pool URL, passed back in as an argument
             return slots[v].query
         if t == "obj":
-            return object()
+            return Opaque()
         raise ValueError("bad spec %r" % (spec,))
     return spec
 
@@ -211,6 +218,9 @@ def freeze(x):
 # observation
 # --------------------------------------------------------------------------------------
 
+import re as _re
+
+_ADDR = _re.compile(r" at 0x[0-9a-fA-F]+")
 SLOTS5 = ("_scheme", "_netloc", "_path", "_query", "_fragment")
 
 
@@ -237,14 +247,18 @@ def vrepr(v):
         return "[" + ",".join(vrepr(x) for x in v) + "]"
     if isinstance(v, dict):
         return "{" + ",".join(vrepr(k) + ":" + vrepr(x) for k, x in v.items()) + "}"
-    if isinstance(v, (str, bytes, int, float, bool)) or v is None or v is NotImplemented:
+    if isinstance(v, str):
+        # a str subclass instance handed in by the caller may legitimately come back (equal
+        # by == and hash); its exact type is not part of the observable value
+        return "str:" + str.__repr__(v)
+    if isinstance(v, (bytes, int, float, bool)) or v is None or v is NotImplemented:
         return type(v).__name__ + ":" + repr(v)
     return "<" + type(v).__name__ + ">"
 
 
 def exc_outcome(e):
     # 4th field: is it (a subclass of) one of the two documented exception types?
-    return ["exc", type(e).__name__, str(e)[:300], "doc" if isinstance(e, (ValueError, TypeError)) else "UNDOC"]
+    return ["exc", type(e).__name__, _ADDR.sub(" at 0x?", str(e)[:300]), "doc" if isinstance(e, (ValueError, TypeError)) else "UNDOC"]
 
 
 def memo_snapshot(u):
